@@ -31,6 +31,7 @@ import (
 	policycfg "github.com/containers/nri-plugins/pkg/apis/config/v1alpha1/resmgr/policy"
 	tacfg "github.com/containers/nri-plugins/pkg/apis/config/v1alpha1/resmgr/policy/topologyaware"
 	"github.com/containers/nri-plugins/pkg/kubernetes"
+	"github.com/containers/nri-plugins/pkg/resmgr/cache"
 	logger "github.com/containers/nri-plugins/pkg/log"
 	"github.com/containers/nri-plugins/pkg/resmgr/policy"
 	"github.com/containers/nri-plugins/pkg/sysfs"
@@ -48,11 +49,25 @@ func (s *vStub) UpdateContainers(u []*api.ContainerUpdate) ([]*api.ContainerUpda
 }
 
 type vHarness struct {
-	m       *resmgr
-	stub    *vStub
-	backend policy.Backend
-	dir     string
-	polName string
+	m        *resmgr
+	stub     *vStub
+	backend  policy.Backend
+	dir      string
+	polName  string
+	t        *testing.T
+	mach     *verifgen.Machine
+	stateDir string
+	cfgv     cfgapi.ResmgrConfig
+}
+
+// vRestart models a plugin restart: a new resource manager on the same state directory.
+func (h *vHarness) vRestart() error {
+	h2, err := vNewHarness(h.t, h.mach, h.dir, h.stateDir, h.polName, h.cfgv)
+	if err != nil {
+		return err
+	}
+	*h = *h2
+	return nil
 }
 
 func vTACfg(rng *rand.Rand, m *verifgen.Machine) (*cfgapi.TopologyAwarePolicy, string) {
@@ -143,7 +158,7 @@ func vNewHarness(t *testing.T, m *verifgen.Machine, root, stateDir, polName stri
 		return nil, fmt.Errorf("policy start: %w", err)
 	}
 	rm.running = true
-	return &vHarness{m: rm, stub: st, backend: backend, dir: root, polName: polName}, nil
+	return &vHarness{m: rm, stub: st, backend: backend, dir: root, polName: polName, t: t, mach: m, stateDir: stateDir, cfgv: cfg}, nil
 }
 
 // ---- canonical rendering
@@ -246,6 +261,7 @@ func (h *vHarness) vSnapshot(w *bufio.Writer) {
 type vPod struct {
 	id, name, ns, qos string
 	ann            map[string]string
+	announced      bool // the runtime has told the plugin about the pod: its annotations are fixed from then on
 }
 
 type vCtr struct {
@@ -374,10 +390,10 @@ func vGenCtr(rng *rand.Rand, p *vPod, n int, machineCPUs int) *vCtr {
 			c.mem = int64(1+rng.Intn(8)) << 33 // large: drives zones into overcommit handling
 		}
 	}
-	if rng.Intn(20) == 0 {
+	if rng.Intn(20) == 0 && !p.announced {
 		p.ann["cpu.preserve."+vKey+"/container."+c.name] = "true"
 	}
-	if rng.Intn(20) == 0 {
+	if rng.Intn(20) == 0 && !p.announced {
 		p.ann["memory.preserve."+vKey+"/container."+c.name] = "true"
 	}
 	if vMemHeavy && len(vNodeMem) > 0 {
@@ -386,7 +402,7 @@ func vGenCtr(rng *rand.Rand, p *vPod, n int, machineCPUs int) *vCtr {
 		if rng.Intn(2) == 0 {
 			c.mem = vNodeMem[rng.Intn(len(vNodeMem))] * int64(30+rng.Intn(45)) / 100
 		}
-		if rng.Intn(6) == 0 {
+		if rng.Intn(6) == 0 && !p.announced {
 			p.ann["memory.preserve."+vKey+"/container."+c.name] = "true"
 		}
 	}
@@ -397,7 +413,17 @@ func vGenCtr(rng *rand.Rand, p *vPod, n int, machineCPUs int) *vCtr {
 var (
 	vMemHeavy bool
 	vNodeMem  []int64
+	vRestarts bool // histories with plugin restarts (C11)
 )
+
+func vPodKeys(wd *vWorld) []string {
+	pk := []string{}
+	for k := range wd.pods {
+		pk = append(pk, k)
+	}
+	sort.Strings(pk)
+	return pk
+}
 
 // ---- event execution
 
@@ -501,13 +527,16 @@ func (h *vHarness) vRunHistory(w *bufio.Writer, rng *rand.Rand, wd *vWorld, nEve
 				p = vGenPod(rng, wd.nPod)
 				wd.nPod++
 				wd.pods[p.id] = p
-				h.simple(w, "runpod "+p.id+" "+p.ns+" "+p.qos, func() ([]*api.ContainerUpdate, error) {
-					return nil, h.m.nri.RunPodSandbox(ctx, p.nri())
-				})
 			}
 			c := vGenCtr(rng, p, wd.nCtr, machineCPUs)
 			wd.nCtr++
 			wd.ctrs[c.id] = c
+			if !p.announced {
+				p.announced = true
+				h.simple(w, "runpod "+p.id+" "+p.ns+" "+p.qos, func() ([]*api.ContainerUpdate, error) {
+					return nil, h.m.nri.RunPodSandbox(ctx, p.nri())
+				})
+			}
 			res := h.createCtr(w, c)
 			if !strings.HasPrefix(res, "ok") {
 				// the runtime undoes a refused creation
@@ -591,6 +620,110 @@ func (h *vHarness) vRunHistory(w *bufio.Writer, rng *rand.Rand, wd *vWorld, nEve
 			h.simple(w, "stoppod "+p.id, func() ([]*api.ContainerUpdate, error) { return nil, h.m.nri.StopPodSandbox(ctx, p.nri()) })
 			h.simple(w, "removepod "+p.id, func() ([]*api.ContainerUpdate, error) { return nil, h.m.nri.RemovePodSandbox(ctx, p.nri()) })
 			delete(wd.pods, p.id)
+		case r < 92 && vRestarts: // the plugin dies and comes back; meanwhile the runtime's world moved on
+			noop := func() ([]*api.ContainerUpdate, error) { return nil, nil }
+			for _, c := range cs {
+				c := c
+				switch x := rng.Intn(10); {
+				case x == 0: // removed while the plugin was down
+					h.simple(w, "down-remove "+c.id, noop)
+					delete(wd.ctrs, c.id)
+				case x == 1 && c.state != api.ContainerState_CONTAINER_STOPPED:
+					c.state = api.ContainerState_CONTAINER_STOPPED
+					h.simple(w, "down-stop "+c.id, noop)
+				case x == 2 && c.state == api.ContainerState_CONTAINER_CREATED:
+					c.state = api.ContainerState_CONTAINER_RUNNING
+					h.simple(w, "down-start "+c.id, noop)
+				}
+			}
+			if rng.Intn(3) == 0 { // a container created while the plugin was down
+				var p *vPod
+				for _, k := range vPodKeys(wd) {
+					p = wd.pods[k]
+					break
+				}
+				if p == nil || rng.Intn(2) == 0 {
+					p = vGenPod(rng, wd.nPod)
+					wd.nPod++
+					wd.pods[p.id] = p
+				}
+				c := vGenCtr(rng, p, wd.nCtr, machineCPUs)
+				p.announced = true
+				wd.nCtr++
+				c.state = []api.ContainerState{api.ContainerState_CONTAINER_CREATED, api.ContainerState_CONTAINER_RUNNING}[rng.Intn(2)]
+				wd.ctrs[c.id] = c
+				nc := c.nri()
+				h.simple(w, "down-create "+c.spec()+" "+vRes(nc.Linux.Resources)+" "+strconv.Itoa(int(c.state)), noop)
+			}
+			if rng.Intn(4) == 0 { // the plugin died in the middle of a CreateContainer: the cache was saved with the container "creating"
+				var p *vPod
+				for _, k := range vPodKeys(wd) {
+					p = wd.pods[k]
+					break
+				}
+				if p != nil {
+					c := vGenCtr(rng, p, wd.nCtr, machineCPUs)
+					wd.nCtr++
+					nc := c.nri()
+					h.m.cache.InsertContainer(nc, cache.WithContainerState(cache.ContainerStateCreating))
+					if rng.Intn(2) == 0 { // the runtime went on and created it
+						c.state = []api.ContainerState{api.ContainerState_CONTAINER_CREATED, api.ContainerState_CONTAINER_RUNNING}[rng.Intn(2)]
+						wd.ctrs[c.id] = c
+						h.simple(w, "down-create "+c.spec()+" "+vRes(nc.Linux.Resources)+" "+strconv.Itoa(int(c.state)), noop)
+					} else {
+						h.simple(w, "down-abandoned "+c.id, noop)
+					}
+				}
+			}
+			var pods []*api.PodSandbox
+			var ctrs []*api.Container
+			for _, k := range vPodKeys(wd) {
+				pods = append(pods, wd.pods[k].nri())
+			}
+			ids := []string{}
+			for _, c := range live() {
+				nc := c.nri()
+				nc.State = c.state
+				ctrs = append(ctrs, nc)
+				ids = append(ids, fmt.Sprintf("%s/%d", c.id, int(c.state)))
+			}
+			h.simple(w, "restart "+strings.Join(append([]string{"_"}, ids...), ","), func() ([]*api.ContainerUpdate, error) {
+				if err := h.vRestart(); err != nil {
+					return nil, err
+				}
+				upd, err := h.m.nri.Synchronize(ctx, pods, ctrs)
+				if err == nil {
+					// a live container left without resources: could it have been satisfied at all?
+					granted := map[string]bool{}
+					var snap []string
+					if h.polName == "balloons" {
+						snap = balloons.VerifSnapshot(h.backend)
+					} else {
+						snap = topologyaware.VerifSnapshot(h.backend)
+					}
+					for _, l := range snap {
+						if f := strings.Fields(l); len(f) > 1 && (f[0] == "PG" || f[0] == "BC") {
+							granted[f[1]] = true
+						}
+					}
+					for _, nc := range ctrs {
+						if granted[nc.Id] || (nc.State != api.ContainerState_CONTAINER_CREATED && nc.State != api.ContainerState_CONTAINER_RUNNING) {
+							continue
+						}
+						if c, ok := h.m.cache.LookupContainer(nc.Id); ok {
+							if aerr := h.m.policy.AllocateResources(c); aerr != nil {
+								fmt.Fprintf(w, "X unsat %s\n", nc.Id)
+							} else {
+								h.m.policy.ReleaseResources(c)
+								fmt.Fprintf(w, "X skipped %s\n", nc.Id)
+							}
+						} else {
+							fmt.Fprintf(w, "X notcached %s\n", nc.Id)
+						}
+					}
+				}
+				return upd, err
+			})
 		default: // re-apply the unchanged configuration
 			fmt.Fprintf(w, "E reconfig same\n")
 			r := vSafe(func() string { return vErr(h.m.reconfigure(h.m.cfg)) })
@@ -670,6 +803,7 @@ func TestVerifTAHistories(t *testing.T) {
 		h.vAfter(w)
 		wd := &vWorld{pods: map[string]*vPod{}, ctrs: map[string]*vCtr{}}
 		vMemHeavy, vNodeMem = i%3 == 1, nil
+		vRestarts = os.Getenv("VERIF_RESTARTS") == "1"
 		for _, nd := range m.Nodes {
 			if nd.HasMemory && nd.MemTotal > 0 {
 				vNodeMem = append(vNodeMem, int64(nd.MemTotal)*1024)
